@@ -53,10 +53,13 @@ def cpspec_doc():
 PROTOCOL_EXTRA = '<COMPARAM-SPEC-REF ID-REF="CPSPEC" DOCREF="CPSPEC" DOCTYPE="COMPARAM-SPEC"/>'
 
 
-def load_docs(docs):
+def load_docs(docs, aux_files=()):
+    import io
     import xml.etree.ElementTree as ET
     from odxtools.database import Database
     db = Database()
+    for name in aux_files:
+        db.add_auxiliary_file(name, io.BytesIO(b""))
     for d in docs:
         db._process_xml_tree(ET.fromstring(d))
     db.refresh()
